@@ -472,6 +472,12 @@ class Exprs:
             return [k for k, _ in v.items]
         if isinstance(v, VStr) and v.py is not None:
             return [self.pystr(c) if not v.is_bytes else VInt(ord(c)) for c in v.py]
+        if isinstance(v, VStr):
+            us = v.units()
+            if us is not None:
+                if v.is_bytes:
+                    return [VInt(u) for u in us]
+                return [self.pystr(chr(u)) if isinstance(u, int) else VStr([z3.Unit(u)], is_char=True) for u in us]
         raise Unsupported(f"iteration over symbolic collection {v!r} needs a contract")
 
     def ev_JoinedStr(self, node: ast.JoinedStr, fr: Frame) -> V:
@@ -571,30 +577,33 @@ class Exprs:
         if spec in ("", "d"):
             return self.int_to_dec(t)
         import re as _re
-        m = _re.fullmatch(r"(0?)(\d*)([xX])", spec)
+        m = _re.fullmatch(r"(0?)(\d*)([xXo])", spec)
         if not m:
             raise Unsupported(f"int format spec {spec!r}")
         width = int(m.group(2)) if m.group(2) else 0
         if width and not m.group(1):
             raise Unsupported(f"space-padded hex {spec!r}")
         upper = m.group(3) == "X"
+        base = 8 if m.group(3) == "o" else 16
         c = z3.simplify(t)
         if z3.is_int_value(c):
             return self.pystr(format(c.as_long(), spec))
-        # symbolic: needs 0 <= t < 16**8 on this path
+        # symbolic: needs 0 <= t < base**8 on this path
         maxd = 8
-        if self.path._check(z3.Or(t < 0, t >= 16 ** maxd)) != z3.unsat:
+        if self.path._check(z3.Or(t < 0, t >= base ** maxd)) != z3.unsat:
             return self.opaque_str("hex")
-        digs = [self.hex_digit((t / (16 ** k)) % 16, upper) for k in range(maxd)]  # k=0 least significant
-
-        def with_n(n: int) -> Any:
-            n = max(n, width, 1)
-            return z3.Concat(*[z3.Unit(digs[k]) for k in reversed(range(n))]) if n > 1 else z3.Unit(digs[0])
-
-        res = with_n(maxd)
-        for n in reversed(range(1, maxd)):
-            res = z3.If(t < 16 ** n, with_n(n), res)
-        return VStr([res])
+        # the number of digits is decided by forking, so that the result is a rope of single characters
+        n = maxd
+        for k in range(max(width, 1), maxd):
+            if self.path.branch(t < base ** k):
+                n = k
+                break
+        n = max(n, width, 1)
+        # digits as fresh variables with a linear defining fact (0 <= t < 16**n on this path)
+        ds = [z3.Int(self.path.fresh_name("$hexdigit")) for _ in range(n)]
+        self.path.add_fact(z3.And(*[z3.And(d >= 0, d <= base - 1) for d in ds]))
+        self.path.add_fact(t == z3.Sum([ds[k] * (base ** k) for k in range(n)]))
+        return VStr([z3.Unit(self.hex_digit(ds[k], upper)) for k in reversed(range(n))])
 
     # --------------------------------------------------------------------- operators
     def ev_BoolOp(self, node: ast.BoolOp, fr: Frame) -> V:
@@ -728,11 +737,12 @@ class Exprs:
                     self.ob(z3.BoolVal(False), "div-by-zero", node, fr, "divisor is not zero")
                     raise PathEnd("division by zero")
                 raise Unsupported("division by negative constant")
-            return VInt(x / y) if isinstance(op, ast.FloorDiv) else VInt(x % y)
+            q, r = self.divmod_const(x, yc.as_long())
+            return VInt(q) if isinstance(op, ast.FloorDiv) else VInt(r)
         if isinstance(op, ast.RShift):
             yc = z3.simplify(y)
             if z3.is_int_value(yc) and yc.as_long() >= 0:
-                return VInt(x / (2 ** yc.as_long()))
+                return VInt(self.divmod_const(x, 2 ** yc.as_long())[0])
         if isinstance(op, ast.LShift):
             yc = z3.simplify(y)
             if z3.is_int_value(yc) and yc.as_long() >= 0:
@@ -742,7 +752,7 @@ class Exprs:
             if z3.is_int_value(yc):
                 k = yc.as_long()
                 if k >= 0 and (k + 1) & k == 0:
-                    return VInt(x % (k + 1))
+                    return VInt(self.divmod_const(x, k + 1)[1])
         if isinstance(op, ast.Pow):
             xc, yc = z3.simplify(x), z3.simplify(y)
             if z3.is_int_value(xc) and z3.is_int_value(yc) and yc.as_long() >= 0:
@@ -750,6 +760,22 @@ class Exprs:
         if isinstance(op, ast.Div):
             return VFloat()
         raise Unsupported(f"binary operator {type(op).__name__}")
+
+    def divmod_const(self, x: Any, c: int) -> Tuple[Any, Any]:
+        """Floor quotient and remainder by a positive constant as fresh variables with *linear* defining
+        facts  x == q*c + r, 0 <= r < c  (z3's div/mod terms are much slower)."""
+        xs = z3.simplify(x)
+        if z3.is_int_value(xs):
+            return z3.IntVal(xs.as_long() // c), z3.IntVal(xs.as_long() % c)
+        key = ("divmod", xs.sexpr(), c)
+        got = self.path.cache.get(key)
+        if got is None:
+            q = z3.Int(self.path.fresh_name("$q"))
+            r = z3.Int(self.path.fresh_name("$r"))
+            self.path.add_fact(z3.And(x == q * c + r, r >= 0, r < c))
+            got = (q, r)
+            self.path.cache[key] = got
+        return got
 
     def ev_Compare(self, node: ast.Compare, fr: Frame) -> V:
         left = self.ev(node.left, fr)
@@ -893,9 +919,21 @@ class Exprs:
                     return base.items[k]
             raise PathEnd("index")
         if isinstance(base, VStr):
+            ic = z3.simplify(i)
+            us = base.units() if base.py is None else None
+            if us is not None and z3.is_int_value(ic):
+                k = ic.as_long()
+                if not (-len(us) <= k < len(us)):
+                    self.ob(z3.BoolVal(False), "index", node, fr, "string index in range")
+                    if fr.in_spec:
+                        return VOpaque("undefined.index")
+                    raise PathEnd("IndexError")
+                u = us[k]
+                if base.is_bytes:
+                    return VInt(u)
+                return self.pystr(chr(u)) if isinstance(u, int) else VStr([z3.Unit(u)], is_char=True)
             ln = z3.Length(base.t) if base.py is None else z3.IntVal(len(base.py))
             self.ob(z3.And(i >= -ln, i < ln), "index", node, fr, "string index in range")
-            ic = z3.simplify(i)
             if base.py is not None and z3.is_int_value(ic):
                 ch = base.py[ic.as_long()]
                 return VInt(ord(ch)) if base.is_bytes else self.pystr(ch)
